@@ -26,8 +26,13 @@ Predicate (u = 2^-53 for double and DPE, u = 2^-wp for multiprecision, wp = mpc_
   multiprecision (MPSolve's mpc_mul uses 3 real multiplications: normwise constant ~11.2, times 2 because
   GMP's mpf_add truncates its operands to prec limbs whose top limb may hold a single bit).  The "+2"
   accounts for the conversion of a non-dyadic rational coefficient (mpf_set_q then mpf_get_d truncate).
+Coefficient range: the family xrange-dense / xrange-sparse (gen_mono_xrange) has every coefficient scaled by
+10^-400, 10^-1000, 10^+400, 2^-1400 or 2^+1400 (moduli outside the range of double: fpc[]/fap[] are 0 or inf there),
+set through the rational, string and mpc setters, and is evaluated in multiprecision (128..512 bits, dense loop,
+sparse loop, own density) and in DPE at roots, near roots and at generic points, under the same predicate
+(the common scale s is taken out before the exact twin runs: p = s p0, p~ = s p0~ exactly).
 Excluded (documented): overflow/underflow in plain double (the generators keep |x|^n max|a_j| within
-2^+-900 for the double variant); x equal to a secular pole b_i, where the interface reports failure
+2^+-900 for the double variant; the xrange family is not evaluated in plain double); x equal to a secular pole b_i, where the interface reports failure
 (returns false) instead of a value -- the check verifies that it does so exactly when x = b_i.
 """
 import json, math, os, struct, sys, concurrent.futures
@@ -205,6 +210,92 @@ def gen_mono_sparsehigh(ctx, rng, idx):
     for (xr, xi) in pts:
         evals += [("X", 64, xr, xi), ("X", 128, xr, xi)]
     return {"kind": "M", "cls": "sparsehigh", "n": n, "coeffs": cs, "evals": evals, "setter": "q", "fprec": 0}
+
+# coefficient scales far outside the range of double in both directions (moduli below 2^-1074 resp. above 2^1024):
+# legal rational / multiprecision input, the reason the DPE and multiprecision evaluators exist.  The double copies
+# fpc[] / fap[] of such coefficients are 0 resp. inf, so any use of them in the DPE / multiprecision paths shows.
+XR_SCALES = [("1e-400", 10, -400), ("1e-1000", 10, -1000), ("1e+400", 10, 400), ("2^-1400", 2, -1400), ("2^+1400", 2, 1400)]
+
+def dyadic_decimal(q):
+    """finite decimal expansion of a dyadic rational, e.g. -49/16 -> '-3.0625'"""
+    q = Fr(q); j = q.denominator.bit_length() - 1
+    assert q.denominator == 1 << j
+    m = q.numerator * 5 ** j; sgn = "-" if m < 0 else ""; digits = str(abs(m))
+    if j == 0: return sgn + digits
+    digits = digits.rjust(j + 1, "0")
+    return sgn + digits[:-j] + "." + digits[-j:]
+
+def gen_mono_xrange(ctx, rng, idx):
+    """monomial polynomials (dense: expanded from prescribed roots; sparse: few terms with a prescribed dyadic root)
+    whose coefficients are exact dyadic rationals times 10^-400, 10^-1000, 10^+400, 2^-1400, 2^+1400, set through the
+    rational, string (mantissa + decimal exponent, or n/d) and mpc setters; evaluated in multiprecision 128..512 bits
+    (dense and sparse loop forced, and the input's own density) and in DPE, at points near / at roots (cancellation:
+    |p(x)| << p~(|x|), the error estimate has to come from p~) and at generic points.  Plain double is excluded
+    (documented: overflow / underflow)."""
+    label, base, ex = XR_SCALES[idx % len(XR_SCALES)]
+    scale = Fr(base) ** ex
+    sparse = (idx // len(XR_SCALES)) % 2 == 1
+    if not sparse:
+        while True:
+            n = rng.choice([6, 9, 12, 16])
+            cplx = rng.random() < 0.5
+            roots = set()
+            while len(roots) < n:
+                roots.add((Fr(rng.randint(-40, 40), 16), Fr(rng.randint(-24, 24), 16) if cplx else Fr(0)))
+            roots = sorted(roots); rng.shuffle(roots)
+            base_cs = poly_from_roots(roots)
+            lead = Fr(rng.choice([1, 3, -5, 7]))
+            base_cs = [(a * lead, b * lead) for (a, b) in base_cs]
+            if all(c != (0, 0) for c in base_cs): break
+        near = roots[:2]
+    else:
+        while True:
+            n = rng.choice([8, 12, 16, 20, 24])
+            r = (Fr(rng.choice([3, 5, 7, 9, -5, -7, -9]), 8), Fr(0))
+            base_cs = [(Fr(0), Fr(0))] * (n + 1); base_cs = list(base_cs)
+            base_cs[n] = (Fr(rng.choice([1, 2, -3])), Fr(0))
+            for k in set(rng.randint(1, n - 1) for _ in range(rng.choice([1, 2, 3]))):
+                base_cs[k] = (Fr(rng.randint(1, 9) * rng.choice([-1, 1])), Fr(rng.randint(-3, 3)) if rng.random() < 0.4 else Fr(0))
+            # constant term such that r is an exact root
+            sr, si = Fr(0), Fr(0)
+            for k in range(n, 0, -1): sr, si = (sr + base_cs[k][0]) * r[0], (si + base_cs[k][1]) * r[0]
+            base_cs[0] = (-sr, -si)
+            if base_cs[0] != (0, 0): break
+        near = [r]
+    cs = [(a * scale, b * scale) for (a, b) in base_cs]
+    # setter: rational, string, and (power-of-two scales: every coefficient is a dyadic with a short mantissa) mpc
+    def mant_bits(v):
+        m = abs(v.numerator)
+        while m and m % 2 == 0: m //= 2
+        return m.bit_length()
+    setters = ["q", "s"]
+    if base == 2 and max(mant_bits(v) for c in base_cs for v in c) <= 192: setters.append("f")
+    setter = setters[(idx // (2 * len(XR_SCALES)) + idx) % len(setters)]
+    case = {"kind": "M", "cls": "xrange-sparse" if sparse else "xrange-dense", "n": n, "coeffs": cs, "setter": setter,
+            "fprec": 256 if setter == "f" else 0, "scale": label, "mscale": scale}
+    if setter == "s" and base == 10 and rng.random() < 0.7:
+        # the natural spelling of such a coefficient: decimal mantissa and decimal exponent
+        case["sstr"] = [("%se%d" % (dyadic_decimal(a), ex), "%se%d" % (dyadic_decimal(b), ex) if b != 0 else "0") for (a, b) in base_cs]
+    pts = []
+    for (rr, ri) in near:
+        pts.append(("root", rr, ri))
+        pts.append(("near", rr + Fr(1, 2 ** rng.choice([10, 20, 30, 40])), ri))
+        pts.append(("near", Fr(float(rr + dy(rng, 53, -16))), Fr(float(ri + dy(rng, 53, -18)))))
+    if len(near) == 1:
+        pts.append(("near", Fr(float(near[0][0] + dy(rng, 53, -30))), Fr(0)))
+    pts.append(("generic", dy(rng, 53, -1), dy(rng, 53, -1)))
+    pts.append(("generic",) + unit_point(rng))
+    pts.append(("generic", dy(rng, 53, 1), dy(rng, 53, 0)))
+    precs = [128, 192, 256, 320, 512]
+    evals = []
+    for j, (what, xr, xi) in enumerate(pts):
+        evals.append(("X", precs[(idx + j) % len(precs)], xr, xi))
+        if what != "generic" or j % 2 == 0: evals.append(("M", rng.choice(precs), xr, xi))
+        evals.append(("D", xr, xi, 0))
+    # DPE point far from the unit circle
+    evals.append(("D", dy(rng, 53, 0), dy(rng, 53, 0), rng.choice([-200, 200])))
+    case["evals"] = evals
+    return case
 
 def fixed_monos():
     """small fixed inputs through EVERY public setter: real, complex, purely imaginary and zero coefficients"""
@@ -393,7 +484,9 @@ def dec_string(q, style):
 def pline(case, cmd="P"):
     if case["kind"] in "MC":
         setter = case.get("setter", "q") if case["kind"] == "M" else "q"
-        if setter == "s":
+        if setter == "s" and case.get("sstr"):
+            body = " ".join(a + " " + b for (a, b) in case["sstr"])
+        elif setter == "s":
             body = " ".join(dec_string(r, j % 2) + " " + dec_string(i, (j + 1) % 2) for j, (r, i) in enumerate(case["coeffs"]))
         else:
             body = " ".join(qhex(r) + " " + qhex(i) for (r, i) in case["coeffs"])
@@ -417,7 +510,10 @@ def ev_point(ev):
 def mline(case, ev):
     xr, xi = ev_point(ev)
     if case["kind"] in "MC":
-        body = " ".join(qhex(r) + " " + qhex(i) for (r, i) in case["coeffs"])
+        # a common scale factor s of all coefficients is taken out: the twin evaluates p0 = p / s (p(x) = s p0(x) and
+        # p~(|x|) = s p0~(|x|) exactly; the twin cancels only factors 2, so 10^-400 would make its denominators explode)
+        s = case.get("mscale", 1)
+        body = " ".join(qhex(r / s) + " " + qhex(i / s) for (r, i) in case["coeffs"])
         return "%s %d %s %s %s" % (case["kind"], case["n"] + 1, body, qhex(xr), qhex(xi))
     body = " ".join("%s %s %s %s" % (qhex(a[0]), qhex(a[1]), qhex(b[0]), qhex(b[1])) for (a, b) in case["ab"])
     return "S %d %s %s %s" % (case["n"], body, qhex(xr), qhex(xi))
@@ -427,6 +523,9 @@ def case_to_json(case, ev):
     if case["kind"] == "M":
         c["setter"] = case.get("setter", "q"); c["fprec"] = case.get("fprec", 0)
         c["coeffs_q"] = [[str(r), str(i)] for (r, i) in case["coeffs"]]
+        if case.get("sstr"): c["sstr"] = [list(t) for t in case["sstr"]]
+        if case.get("scale"): c["scale"] = case["scale"]
+        if case.get("mscale"): c["mscale"] = str(case["mscale"])
     return c
 
 # ----------------------------------------------------------------------------- judging
@@ -531,6 +630,8 @@ class Judge:
             pre, pim, cond = parse_qhex(model[3]), parse_qhex(model[4]), parse_qhex(model[5])
         else:
             pre, pim, cond = parse_qhex(model[1]), parse_qhex(model[2]), parse_qhex(model[3])
+            if case.get("mscale"):
+                pre, pim, cond = pre * case["mscale"], pim * case["mscale"], cond * case["mscale"]
             if model[4] != "1":
                 self.flags_bad += 1
                 ctx.violation("correspondence:exact-twin-scheme-differs:%s" % kind,
@@ -543,6 +644,13 @@ class Judge:
         if kind == "M": self.h("setter:_%s" % {"q": "q", "i": "int", "d": "d", "f": "f", "s": "s"}[case.get("setter", "q")])
         self.h("deg<=%d" % (5 if n <= 5 else 20 if n <= 20 else 60))
         if arith == "M": self.h("prec:%d" % wp)
+        if case.get("scale"):
+            # coefficient moduli outside the range of double: per scale, per evaluator, near a root or not
+            self.h("xrange:scale=%s" % case["scale"]); self.h("xrange:%s/%s" % (case["cls"][7:], tag))
+            nearroot = abs2(pre, pim) * 2 ** 40 < cond * cond     # |p(x)| < 2^-20 p~(|x|)
+            self.h("xrange:point=%s" % ("at-root" if (pre, pim) == (0, 0) else "cancellation>=2^20" if nearroot else "generic"))
+            if est is not None:
+                self.ratio(self.max_est_ratio, "M/%s:xrange" % arith, e2, est)
         self.ratio(self.max_ratio, "%s/%s" % (kind, arith), e2, B)
         if est is not None and len(model) > 6 and tag in ("feval", "deval", "meval"):
             if kind == "S" or (kind == "C" and arith == "M" and n >= 1):
@@ -719,6 +827,9 @@ def replay(ctx, harness, obj):
     case = {"kind": kind, "n": n, "cls": obj.get("cls", "replay")}
     if "coeffs_q" in obj:
         case["coeffs"] = [(Fr(a), Fr(b)) for a, b in obj["coeffs_q"]]; case["setter"] = obj.get("setter", "q"); case["fprec"] = obj.get("fprec", 0)
+        if obj.get("sstr"): case["sstr"] = [tuple(t) for t in obj["sstr"]]
+        if obj.get("scale"): case["scale"] = obj["scale"]
+        if obj.get("mscale"): case["mscale"] = Fr(obj["mscale"])
     elif kind in "MC": case["coeffs"] = [(vals[2 * j], vals[2 * j + 1]) for j in range(n + 1)]
     else: case["ab"] = [((vals[4 * j], vals[4 * j + 1]), (vals[4 * j + 2], vals[4 * j + 3])) for j in range(n)]
     if el[0] == "F": ev = ("F", parse_qhex(el[1]), parse_qhex(el[2]))
@@ -743,6 +854,8 @@ def run(ctx):
     nm, nc, ns = ctx.pick((40, 12, 20), (640, 200, 300))
     cases = fixed_monos() + [gen_mono(ctx, rng, i, quick) for i in range(nm)]
     cases += [gen_mono_sparsehigh(ctx, rng, i) for i in range(ctx.pick(4, 40))]
+    xoff = rng.randint(0, 59)        # the (scale, shape, setter) cycle has period 60: the seed picks where the quick tier enters it
+    cases += [gen_mono_xrange(ctx, rng, xoff + i) for i in range(ctx.pick(10, 60))]
     cases += [gen_cheb(ctx, rng, i, quick) for i in range(nc)]
     cases += [gen_cheb_witness(ctx, rng, i) for i in range(ctx.pick(2, 8))]
     cases += [gen_sec(ctx, rng, i, quick) for i in range(ns)]
@@ -765,6 +878,7 @@ def run(ctx):
     ctx.log("evaluations judged: %d (non-zero error %d), poles %d, noimpl %d" % (judge.evals, judge.nontrivial, judge.pole_ok, judge.noimpl))
     ctx.log("worst |err|/bound: %s" % json.dumps({k: round(v, 4) for k, v in judge.max_ratio.items()}))
     ctx.log("worst |err|/estimate: %s" % json.dumps({k: (round(v, 6) if v < 1e300 else "inf") for k, v in judge.max_est_ratio.items()}))
+    ctx.log("coefficient moduli outside the range of double (records): %s" % json.dumps({k[7:]: v for k, v in sorted(judge.hist.items()) if k.startswith("xrange:")}))
     ctx.log("double/DPE estimates below the error (statistic): %s ; exactly zero: %s" % (json.dumps(judge.est_below), json.dumps(judge.est_zero)))
     cov = {
         "evaluations": judge.evals,
@@ -781,6 +895,7 @@ def run(ctx):
         "estimates_judged": dict(sorted(judge.est_judged.items())),
         "double_dpe_estimate_below_error": dict(sorted(judge.est_below.items())),
         "double_dpe_estimate_zero_with_nonzero_error": dict(sorted(judge.est_zero.items())),
+        "coefficients_outside_double_range": {k[7:]: v for k, v in sorted(judge.hist.items()) if k.startswith("xrange:")},
         "defect_probe_exit_codes": probe,
         "estimate_tie": dict(sorted(judge.tie.items())),
         "estimate_tie_worst_distance_over_tolerance": {k: round(v, 6) for k, v in judge.tie_worst.items()},
@@ -791,7 +906,7 @@ def run(ctx):
         "trusted_base": [
             "Coq 8.16.1 kernel; Coquelicot Complex; axioms of the standard library reals as printed by Print Assumptions",
             "extraction (ExtrOcamlBasic, ExtrOcamlNativeString only) of the exact Gaussian-rational twin; ocaml/eval_driver.ml (number parsing/printing)",
-            "harness/c14_eval.c (exports double bit patterns, DPE mantissa+exponent, mpf mantissa exactly) and Python fractions for the predicate",
+            "harness/c14_eval.c (exports double bit patterns, DPE mantissa+exponent, mpf mantissa exactly) and Python fractions for the predicate; for the inputs with coefficients outside the range of double (histogram keys xrange:*) the common scale factor s (a power of 10 or 2) is divided out before the exact twin runs and multiplied back in Python (p = s p0 and p~ = s p0~ hold exactly)",
             "proved for binary64 (Flocq FLX 53, round to nearest even, no overflow/underflow): cplx_add/sub/mul/inv/div of mt.c as coded satisfy the standard model (3u, 11u with division); that gcc/x86-64 double arithmetic is IEEE binary64 without contraction (-ffp-contract=off) is trusted",
             "modelled, not verified: that the DPE and GMP arithmetic satisfy the standard model with the constants mu above (C12/C13 are about that); the guard-bit hypotheses of C14_mp_estimate_bounds_error, C14_secular_poly_estimate_bounds_error, C14_chebyshev_fixed_estimate_bounds_error about GMP, whose consequence (estimate >= error) is tested on every MP run",
             "the rational bound of p~(|x|) computed by the twin is PROVED to be an upper bound (C14_twin_bound; excess about 2^-60 per rounding); the analogous bounds chebabs_q and sec_abs_q of the Chebyshev and secular condition quantities use the same proved roundings qsqrt_up/qup but their end-to-end statement is not proved",
